@@ -332,6 +332,17 @@ fn do_stream<'a>(
   })
 }
 
+/// Allocates, fills and frees a few blocks of the sizes a just-dropped value
+/// is likely to have freed, so that a read through a dangling pointer meets
+/// other bytes (natively; under Miri the read itself is the report).
+fn scribble(hint: usize) {
+  let mut keep: Vec<Vec<u8>> = vec![];
+  for sz in [hint, hint, hint + 1, hint.saturating_sub(1), 16, 24, 32, 48, 64, 96, 128] {
+    keep.push(vec![b'#'; sz.max(1)]);
+  }
+  std::hint::black_box(&keep);
+}
+
 fn exec_inner(src: &Dyn, objs: &[&Dyn], kind: &OpKind, ctx: &ExecCtx) -> Answer {
   match kind {
     OpKind::Source => Answer::Text(src.source().into_owned()),
@@ -439,12 +450,33 @@ fn exec_inner(src: &Dyn, objs: &[&Dyn], kind: &OpKind, ctx: &ExecCtx) -> Answer 
         Err(p) => std::panic::resume_unwind(p),
       }
     }
-    OpKind::CloneThen { then } => {
+    OpKind::CloneThen { then, orphan } => {
       let c: Box<dyn Source> = dyn_clone::clone_box(src);
       if ctx.cb_points {
         user_point("op.cloned");
       }
-      exec_inner(&*c, objs, then, ctx)
+      match orphan {
+        None => exec_inner(&*c, objs, then, ctx),
+        Some(warm) => {
+          // fill the first clone's lazily computed state, clone it again and
+          // drop it: the second clone must not depend on its origin
+          // (the warm-up is a disturber: if it panics, e.g. on positional
+          // arithmetic over a binary leaf, that is not this op's answer)
+          if let Err(p) = catch_unwind(AssertUnwindSafe(|| {
+            let _ = exec_inner(&*c, objs, warm, ctx);
+          })) {
+            if p.is::<SimAbort>() {
+              std::panic::resume_unwind(p);
+            }
+            let _ = sched::take_last_panic();
+          }
+          let c2: Box<dyn Source> = dyn_clone::clone_box(&*c);
+          let hint = c.size();
+          drop(c);
+          scribble(hint);
+          exec_inner(&*c2, objs, then, ctx)
+        }
+      }
     }
   }
 }
